@@ -1,7 +1,8 @@
 (* Unit table: numbers are shared with harness/units.py (checked by
    harness/selftest at setup: every unit answers a probe). *)
-From Coq Require Import ZArith List.
+From Coq Require Import ZArith List Bool.
 From VL Require Import Prelude.Sx Model.Units.
+From VL Require Import Model.Units_C07 Model.Units_C08 Model.Units_C10 Model.Units_C11 Model.Units_C14 Model.Units_C17 Model.Units_C18 Model.Units_C19.
 Import ListNotations.
 Open Scope Z_scope.
 
@@ -35,5 +36,15 @@ Definition dispatch (u : Z) (a : sx) : sx :=
   | 26 => u_mj a
   | 27 => u_score_to_simple a
   | 28 => u_overhang a
-  | _ => bad_input
+  | _ =>
+      (* blocks of ten unit numbers per later property (harness/units.py BLOCK) *)
+      if (100 <=? u) && (u <? 110) then u_c07 (u - 100) a
+      else if (110 <=? u) && (u <? 120) then u_c08 (u - 110) a
+      else if (120 <=? u) && (u <? 130) then u_c10 (u - 120) a
+      else if (130 <=? u) && (u <? 140) then u_c11 (u - 130) a
+      else if (140 <=? u) && (u <? 150) then u_c14 (u - 140) a
+      else if (150 <=? u) && (u <? 160) then u_c17 (u - 150) a
+      else if (160 <=? u) && (u <? 170) then u_c18 (u - 160) a
+      else if (170 <=? u) && (u <? 190) then u_c19 (u - 170) a
+      else bad_input
   end.
